@@ -645,6 +645,20 @@ class ThreadCheck(LockCheck):
             'mismatching_scenarios': len(mismatches),
             'exhaustive': False,
         })
+        outside = {}
+        for r in results.values():
+            pr = r.get('proto', '')
+            if pr.startswith('outside:'):
+                why = pr.split(':', 2)[2].replace('_', ' ')
+                outside[why] = outside.get(why, 0) + 1
+        self.cov['protocol_model_lockstep'] = {
+            'what': 'EpochProto (the model of the interleaving theorems c04_protocol / c16_protocol_*) is run in lockstep with '
+                    'the thread-level model on every replayed trace: each of its actions must be enabled and ids, G, M, E, H '
+                    'and the program counters of the acting thread must agree after every quantum',
+            'scenarios_followed_to_the_end': stats.get('proto_lockstep_scenarios', 0),
+            'actions_applied': stats.get('proto_lockstep_actions', 0),
+            'scenarios_outside_the_protocol_premises': outside,
+        }
         some = sorted(allscen)[:2]
         self.samples = [allscen[s_][1][:1500] for s_ in some]
         self.cov['samples'] = self.samples
@@ -717,7 +731,9 @@ class C04(ThreadCheck):
         return True   # ForwardGlobalEpoch / guard creation must return
 
     lean_module = 'CppUtil.Props.C04'
-    theorems = ['CppUtil.Props.c04_collected_is_published', 'CppUtil.Props.c15_free_slot_all_expired', 'CppUtil.Props.c15_unexpired_unique', 'CppUtil.Props.c15_exit_order']
+    theorems = ['CppUtil.Props.c04_protocol', 'CppUtil.Props.c04_protocol_min', 'CppUtil.Props.proto_must_start', 'CppUtil.Props.proto_must_kept',
+                'CppUtil.Props.c04_protocol_nonvacuous', 'CppUtil.Props.c04_protocol_fails_with_original_exit_order',
+                'CppUtil.Props.c04_collected_is_published', 'CppUtil.Props.c15_free_slot_all_expired', 'CppUtil.Props.c15_unexpired_unique', 'CppUtil.Props.c15_exit_order']
     categories = ['pin']
     kinds = ('epoch',)
 
@@ -750,7 +766,9 @@ class C16(ThreadCheck):
         return True   # ForwardGlobalEpoch / guard creation must return
 
     lean_module = 'CppUtil.Props.C16'
-    theorems = ['CppUtil.Props.c16_initial', 'CppUtil.Props.c16_min_le_cur', 'CppUtil.Props.c16_contains_cur_next', 'CppUtil.Props.c16_quiescent', 'CppUtil.Props.c16_head_is_new']
+    theorems = ['CppUtil.Props.c16_initial', 'CppUtil.Props.c16_min_le_cur', 'CppUtil.Props.c16_contains_cur_next', 'CppUtil.Props.c16_quiescent', 'CppUtil.Props.c16_head_is_new',
+                'CppUtil.Props.c16_protocol_count', 'CppUtil.Props.c16_protocol_step', 'CppUtil.Props.c16_protocol_min_le_later_cur',
+                'CppUtil.Props.c16_protocol_quiescent', 'CppUtil.Props.proto_quiet_start', 'CppUtil.Props.proto_quiet_create']
     categories = ['epoch']
     kinds = ('epoch',)
     long_share = 0.15
